@@ -177,7 +177,7 @@ PROPS = {
             "C09_std_to_array", "C09_std_sorted_by_key", "C09_std_min_max_by_key", "C09_row_to_value_pure",
             "C09_std_sorted", "C09_std_min_max", "C09_std_passthrough",
             "C09_tree_orderings_agree_on_samples"]},
-        n_quick=300, n_thorough=4000,
+        n_quick=400, n_thorough=4000,
         gen_timeout=3000,
         gates=["fn.filter", "fn.map", "fn.any", "fn.min", "fn.max", "fn.min_by_key", "fn.max_by_key", "fn.sorted",
                "fn.sorted_by_key", "fn.to_array", "size.0", "size.1", "size.2", "size.3-10", "size.11-40",
